@@ -50,6 +50,8 @@ type Contract struct {
 	Uses     []string
 	Attrs    map[string]string
 	Pos      string
+	Lit      *ast.FuncLit
+	Captured []string // closure contracts: names of captured variables (leading clause parameters)
 
 	// filled by generator
 	ParamNames  []string // receiver first
@@ -627,11 +629,15 @@ func findFuncDecl(pk *Pkg, name string) *ast.FuncDecl {
 
 // loopStmts returns the for/range statements of a function body in source order.
 func loopStmts(fd *ast.FuncDecl) []ast.Stmt {
-	var out []ast.Stmt
 	if fd.Body == nil {
 		return nil
 	}
-	ast.Inspect(fd.Body, func(n ast.Node) bool {
+	return loopStmtsBody(fd.Body)
+}
+
+func loopStmtsBody(body *ast.BlockStmt) []ast.Stmt {
+	var out []ast.Stmt
+	ast.Inspect(body, func(n ast.Node) bool {
 		switch n.(type) {
 		case *ast.FuncLit:
 			return false
@@ -760,6 +766,24 @@ func (g *genCtx) genContract(c *Contract, lp interface{}, out *strings.Builder) 
 	switch c.Kind {
 	case "func", "lemma":
 		nm := strings.TrimPrefix(c.Key, c.PkgPath+".")
+		if i := strings.LastIndex(nm, "$"); i > 0 {
+			// closure contract: "Func$N" is the N-th function literal of Func
+			ord, _ := strconv.Atoi(nm[i+1:])
+			fd = findFuncDecl(g.pkg, nm[:i])
+			var lit *ast.FuncLit
+			if fd != nil {
+				lit = nthFuncLit(fd, ord)
+			}
+			if fd == nil || lit == nil {
+				c.Attrs["lost"] = "contract target " + nm + " not found in " + c.PkgPath
+				return nil
+			}
+			if err := g.sigFromLit(c, fd, lit); err != nil {
+				return err
+			}
+			c.Lit = lit
+			break
+		}
 		fd = findFuncDecl(g.pkg, nm)
 		if fd == nil {
 			// lost obligation: reported by the binder later
@@ -827,6 +851,9 @@ func (g *genCtx) genContract(c *Contract, lp interface{}, out *strings.Builder) 
 			return fmt.Errorf("%s: loop clauses on a function without source", c.Pos)
 		}
 		loops := loopStmts(fd)
+		if c.Lit != nil {
+			loops = loopStmtsBody(c.Lit.Body)
+		}
 		info := g.pkgInfo()
 		var ords []int
 		for k := range c.Loops {
@@ -1126,4 +1153,78 @@ func HelperFileText(pkgName string, tag bool) string {
 // doc comments).
 func isContractComment(t string) bool {
 	return strings.HasPrefix(t, "//@") || strings.HasPrefix(t, "// @")
+}
+
+// nthFuncLit returns the n-th (1-based, source order, outermost first as go/ssa numbers them)
+// function literal directly inside fd (literals nested in literals are numbered by their own parent).
+func nthFuncLit(fd *ast.FuncDecl, n int) *ast.FuncLit {
+	var lits []*ast.FuncLit
+	if fd.Body == nil {
+		return nil
+	}
+	ast.Inspect(fd.Body, func(nd ast.Node) bool {
+		if l, ok := nd.(*ast.FuncLit); ok {
+			lits = append(lits, l)
+			return false
+		}
+		return true
+	})
+	if n < 1 || n > len(lits) {
+		return nil
+	}
+	return lits[n-1]
+}
+
+// sigFromLit: clause parameters of a closure contract are the captured variables (by name, in order
+// of first use) followed by the literal's own parameters; results as for functions.
+func (g *genCtx) sigFromLit(c *Contract, fd *ast.FuncDecl, lit *ast.FuncLit) error {
+	info := g.pkgInfo()
+	if info == nil {
+		return fmt.Errorf("no type info for %s", g.pkg.Path)
+	}
+	c.ParamNames, c.ParamTypes, c.ResultNames, c.ResultTypes, c.Captured = nil, nil, nil, nil, nil
+	seen := map[types.Object]bool{}
+	ast.Inspect(lit.Body, func(nd ast.Node) bool {
+		id, ok := nd.(*ast.Ident)
+		if !ok {
+			return true
+		}
+		v, ok := info.Uses[id].(*types.Var)
+		if !ok || v.IsField() || seen[v] {
+			return true
+		}
+		// declared inside the enclosing function but outside the literal
+		if v.Pos() >= fd.Pos() && v.Pos() < fd.End() && !(v.Pos() >= lit.Pos() && v.Pos() < lit.End()) {
+			seen[v] = true
+			c.Captured = append(c.Captured, v.Name())
+			c.ParamNames = append(c.ParamNames, v.Name())
+			c.ParamTypes = append(c.ParamTypes, g.typeStr(v.Type()))
+		}
+		return true
+	})
+	sig := info.TypeOf(lit).(*types.Signature)
+	for i := 0; i < sig.Params().Len(); i++ {
+		p := sig.Params().At(i)
+		n := p.Name()
+		if n == "" || n == "_" {
+			n = fmt.Sprintf("arg%d", i)
+		}
+		c.ParamNames = append(c.ParamNames, n)
+		c.ParamTypes = append(c.ParamTypes, g.typeStr(p.Type()))
+	}
+	nr := sig.Results().Len()
+	for i := 0; i < nr; i++ {
+		r := sig.Results().At(i)
+		n := r.Name()
+		if n == "" || n == "_" {
+			if nr == 1 {
+				n = "ret"
+			} else {
+				n = fmt.Sprintf("ret%d", i)
+			}
+		}
+		c.ResultNames = append(c.ResultNames, n)
+		c.ResultTypes = append(c.ResultTypes, g.typeStr(r.Type()))
+	}
+	return nil
 }
